@@ -22,6 +22,10 @@ CHECKS = {
          "Every numeric input of the boundary grid, in every representation, is parsed into every numeric destination (directly, inside a struct, through a JSON document) with and without bound tests attached; the destination must equal the exact value (truncated / correctly rounded) or exactly one coerce issue must be reported. exhaustive: true for the grid.", "DESIGN.md §4 C18"),
  "C20": ("exploration", "runtime monitor: single-test schemas vs independently written predicates, exhaustive over small alphabets/ranges (about 1M subject/test pairs), both modes, plain and Not() forms",
          "Each built-in test is executed on an exhaustively enumerated subject space and the presence of its issue is compared with a predicate written independently of zog (explicit character sets, hand-written e-mail/UUID recognisers, URLs labelled by construction, Go comparisons incl. NaN, deep equality). exhaustive: true for the enumerated spaces.", "DESIGN.md §4 C20"),
+ "C03": ("exploration", "runtime monitor: exhaustive options/representation matrix + random schemas, destination compared leaf by leaf with the reference coercion, stale sentinel-prefilled destinations",
+         "Successful Parse calls are compared leaf by leaf with the documented coercion of the input computed by the reference (math/big numerics, documented bool/time/string tables, WithCoercer, Time.Format layouts, global overrides installed around construction); destinations start from stale sentinels so that untouched / allocated / unnamed-field clauses are observable. exhaustive: true for the options matrix.", "DESIGN.md §4 C03"),
+ "C06": ("exploration", "runtime monitor: recover() and worker-death attribution around Parse under hostile Go values x schema kinds x placements, malformed wire inputs through every front end, faulty readers, unusual valid configuration",
+         "Hostile dynamic types and shapes are fed to every schema kind at every placement, and malformed JSON/form/query/env input through zjson, zhttp and zenv (including faulty readers); the only oracle is that Parse returns. A fatal error kills the worker and is attributed through the BEGIN log and a solo re-run.", "DESIGN.md §4 C06"),
 }
 NA_REASON = "check under construction (monitor not yet registered in this commit)"
 checks = []
